@@ -65,6 +65,12 @@ Drift(e) ==
 \* The state variables of Codec's round-trip machine are not stepped here (one RT event folds the whole
 \* behaviour RunPipeline .. DecodeStep); the verdict uses the machine's constant-level definitions.
 TOne(n) == {1}
+\* call-history independence (Codec!HistoryIndependent): the k-th decompress() of the same unit in one process gives
+\* what the first gave, however much the calls before it decompressed
+HistVerdict(e) == IF e.first[1] # "ok" THEN "history-first-call-failed"
+                  ELSE IF e.firstdiff # -1 \/ e.last # e.first THEN "history-dependent"
+                  ELSE "ok"
+
 Init == tl = 1 /\ CInitWith({0}, {0}, TOne)
 Next == /\ tl <= Len(Rec)
         /\ tl' = tl + 1
@@ -73,6 +79,7 @@ Next == /\ tl <= Len(Rec)
            IF e.ev = "Reset" THEN TRUE
            ELSE IF e.ev = "Hang" THEN PrintT(<<"BAD", tl, "hang">>)        \* a codec call did not return (watchdog)
            ELSE IF e.ev = "Abort" THEN PrintT(<<"BAD", tl, "abort">>)      \* the process running the case died
+           ELSE IF e.ev = "Hist" THEN (IF HistVerdict(e) = "ok" THEN TRUE ELSE PrintT(<<"BAD", tl, HistVerdict(e)>>))
            ELSE IF e.ev # "RT" THEN PrintT(<<"BAD", tl, "unknown-event">>)
            ELSE LET v == Verdict(e) IN
                 /\ (IF v = "ok" THEN TRUE ELSE PrintT(<<"BAD", tl, v>>))
